@@ -154,10 +154,15 @@ class FakeRedis(object):
         return _Pipe(self)
 
 
+class ConcurrentUse(Exception):
+    """stands for gevent.exceptions.ConcurrentObjectUseError"""
+
+
 class _Pipe(object):
     def __init__(self, r):
         self.r = r
         self.ops = []
+        self.in_flight = False
 
     def __getattr__(self, name):
         def add(*a, **k):
@@ -166,9 +171,34 @@ class _Pipe(object):
         return add
 
     def execute(self):
-        self.r._tick('pipeline-execute')
-        hook, self.r.yield_hook = self.r.yield_hook, None     # MULTI/EXEC is atomic
+        # as redis-py does it: the queued commands are taken (packed) when execute() is called, the round trip may yield, and
+        # the pipeline object hands itself back empty afterwards -- whatever was queued on it in the meantime is gone
+        stack = list(self.ops)
+        if self.in_flight:
+            # one pipeline object holds one connection while it executes; gevent refuses a second waiter on that socket
+            raise ConcurrentUse('This socket is already used by another greenlet')
+        self.in_flight = True
         try:
-            return [getattr(self.r, n)(*a, **k) for n, a, k in self.ops]
+            if not stack:
+                return []
+            self.r._tick('pipeline-execute')
+            hook, self.r.yield_hook = self.r.yield_hook, None     # MULTI/EXEC is atomic
+            try:
+                return [getattr(self.r, n)(*a, **k) for n, a, k in stack]
+            finally:
+                self.r.yield_hook = hook
         finally:
-            self.r.yield_hook = hook
+            self.in_flight = False
+            self.ops = []
+
+
+def make_storage(world, prefix='slimta:'):
+    """A RedisStorage built by its own constructor; only the client library underneath is the fake."""
+    import types
+    import slimta.redisstorage as rs
+    fake = FakeRedis()
+    world.patch(rs, 'redis', types.SimpleNamespace(ConnectionPool=lambda **kw: ('pool', kw),
+                                                   StrictRedis=lambda connection_pool=None, **kw: fake))
+    st = rs.RedisStorage(prefix=prefix)
+    assert st.redis is fake
+    return st, fake
